@@ -655,4 +655,5 @@ MUTANTS = [
     Mutant("twin-commute", EQ, "ThermalEquivalence._convert", "np.multiply(x, pc.kboltz", "np.multiply(pc.kboltz, x", (), benign=True),
     Mutant("twin-alias-const", EQ, "ThermalEquivalence._convert", "pc.kboltz", "pc.boltzmann_constant", (), count=2, benign=True),
     Mutant("data-parameter-rebound", EQ, "SoundSpeedEquivalence._convert", "                v2 = np.multiply(x, x, out=self._get_out(x))\n                kT = np.multiply(v2, mu * pc.mh / gamma, out=self._get_out(x))\n                return np.true_divide(kT, pc.kboltz, out=self._get_out(x))", "                x = np.multiply(x, x, out=self._get_out(x))\n                kT = np.multiply(x, mu * pc.mh / gamma, out=self._get_out(x))\n                return np.true_divide(kT, pc.kboltz, out=self._get_out(x))", ("C09-R4",)),
+    Mutant("equivalence-floor-division", EQ, "ThermalEquivalence._convert", "return np.true_divide(x, pc.kboltz, out=self._get_out(x))", "return np.floor_divide(x, pc.kboltz, out=self._get_out(x))", ("C09-R8",)),
 ]
